@@ -8,15 +8,18 @@ Open Scope N_scope.
 Definition MAX_ARG_STRLEN : N := 131072.
 Definition kernel_limit (rlimit_stack : N) : N := N.max (N.min (rlimit_stack / 4) 6291456) 131072.
 Definition strings (l : list N) : N := fold_right (fun len s => len + 1 + s) 0 l.
-Record execve_call := { argv : list N; envp : list N; fname : N }.
+(* [fname]: the file name execve is given; [shebang]: what the kernel pushes besides when that file is a "#!" script - the file name
+   a second time (with its NUL) and the interpreter line, in place of argv[0] - 0 for a binary (fs/binfmt_script.c; the argv[0] it
+   removes is not credited here, so the rule errs on the side of refusing) *)
+Record execve_call := { argv : list N; envp : list N; fname : N; shebang : N }.
 Definition kernel_accepts (rl : N) (c : execve_call) : Prop :=
   Forall (fun len => len + 1 <= MAX_ARG_STRLEN) (argv c ++ envp c) /\
-  strings (argv c) + strings (envp c) + (fname c + 1) + 8 * (N.of_nat (length (argv c)) + N.of_nat (length (envp c))) + 16
+  strings (argv c) + strings (envp c) + (fname c + 1) + shebang c + 8 * (N.of_nat (length (argv c)) + N.of_nat (length (envp c))) + 16
     <= kernel_limit rl.
 (* executable form, for the prober *)
 Definition kernel_accepts_b (rl : N) (c : execve_call) : bool :=
   forallb (fun len => len + 1 <=? MAX_ARG_STRLEN) (argv c ++ envp c) &&
-  (strings (argv c) + strings (envp c) + (fname c + 1) + 8 * (N.of_nat (length (argv c)) + N.of_nat (length (envp c))) + 16
+  (strings (argv c) + strings (envp c) + (fname c + 1) + shebang c + 8 * (N.of_nat (length (argv c)) + N.of_nat (length (envp c))) + 16
     <=? kernel_limit rl).
 
 Definition env_strings (env : list (N * N)) : list N := map (fun kv => fst kv + 1 + snd kv) env.   (* "k=v" *)
